@@ -145,7 +145,7 @@ macro_rules! long_arrays {
     }};
 }
 
-/// The wire bytes fetched into and written from a host byte buffer at every offset within a word x guest offset 8..24. A stored wrapper moved within guest memory to a place that overlaps its old one (up and down
+/// The wire bytes through write_all_to / read_exact_from over std writers and readers that move 1..size+1 bytes per call and are interrupted in between. The wire bytes fetched into and written from a host byte buffer at every offset within a word x guest offset 8..24. A stored wrapper moved within guest memory to a place that overlaps its old one (up and down
 /// by 1..size-1 bytes, and by its size) through the slice-to-slice copies: the wire format
 /// arrives intact at the new place.
 macro_rules! moves {
@@ -230,6 +230,78 @@ macro_rules! raw_phases {
                         let key = format!("C20/{}/wire-bytes-through-a-host-byte-buffer", stringify!($W));
                         $ctx.fail(&key, &format!("value {:#x} at guest offset {} (mod 8 = {}): {}", v, off, off % 8, d), json!({"type": stringify!($W), "value": format!("{:#x}", v), "guest_offset": off, "host_buffer_offset": k}));
                     }
+                }
+            }
+        }
+    }};
+}
+
+/// A writer / reader that moves at most `k` bytes per call and is interrupted before every other
+/// call: the wrapper's bytes leave through `write_all_to` and come back through
+/// `read_exact_from` in wire order, once each, whatever the chunking.
+struct Trickle {
+    data: Vec<u8>,
+    pos: usize,
+    k: usize,
+    calls: usize,
+}
+
+impl std::io::Write for Trickle {
+    fn write(&mut self, buf: &[u8]) -> std::io::Result<usize> {
+        self.calls += 1;
+        if self.calls % 3 == 2 {
+            return Err(std::io::Error::from(std::io::ErrorKind::Interrupted));
+        }
+        let n = buf.len().min(self.k);
+        self.data.extend_from_slice(&buf[..n]);
+        Ok(n)
+    }
+    fn flush(&mut self) -> std::io::Result<()> {
+        Ok(())
+    }
+}
+
+impl std::io::Read for Trickle {
+    fn read(&mut self, buf: &mut [u8]) -> std::io::Result<usize> {
+        self.calls += 1;
+        if self.calls % 3 == 2 {
+            return Err(std::io::Error::from(std::io::ErrorKind::Interrupted));
+        }
+        let n = buf.len().min(self.k).min(self.data.len() - self.pos);
+        buf[..n].copy_from_slice(&self.data[self.pos..self.pos + n]);
+        self.pos += n;
+        Ok(n)
+    }
+}
+
+macro_rules! serialised {
+    ($ctx:expr, $W:ident, $N:ty, $tobytes:ident, $vals:expr) => {{
+        use vm_memory::ByteValued;
+        let sz = size_of::<$N>();
+        for &v64 in $vals.iter() {
+            let v = v64 as $N;
+            let w: $W = v.into();
+            let want = v.$tobytes();
+            for k in 1..=sz + 1 {
+                $ctx.case(true);
+                let mut sink = Trickle { data: vec![0xEE], pos: 0, k, calls: 0 };
+                let r = w.write_all_to(&mut sink);
+                let mut bad: Option<String> = None;
+                if r.is_err() || sink.data[1..] != want[..] || sink.data[0] != 0xEE {
+                    bad = Some(format!("write_all_to a writer taking {} byte(s) per call: {:?}, the writer holds {:02x?}, expected {:02x?}", k, r, &sink.data[1..], want));
+                }
+                let mut src = Trickle { data: want.iter().cloned().chain([0x77u8, 0x78]).collect(), pos: 0, k, calls: 0 };
+                match <$W>::read_exact_from(&mut src) {
+                    Ok(back) => {
+                        if back != w || src.pos != sz {
+                            bad = Some(format!("read_exact_from a reader giving {} byte(s) per call: value {:#x}, {} bytes consumed", k, back.to_native(), src.pos));
+                        }
+                    }
+                    Err(e) => bad = Some(format!("read_exact_from a reader giving {} byte(s) per call: {:?}", k, e)),
+                }
+                if let Some(d) = bad {
+                    let key = format!("C20/{}/wire-format-through-std-io", stringify!($W));
+                    $ctx.fail(&key, &format!("value {:#x}: {}", v, d), json!({"type": stringify!($W), "value": format!("{:#x}", v), "bytes_per_call": k}));
                 }
             }
         }
@@ -480,7 +552,7 @@ fn structured64() -> impl Iterator<Item = u64> {
 
 pub fn run(tier: Tier, replay: Option<String>) -> i32 {
     let ctx = crate::new_ctx("C20", tier, "exploration", &replay);
-    ctx.set_rule("all 2^16 values for Le16/Be16; all 2^32 values for Le32/Be32 in the thorough tier (quick: every value whose bytes are drawn from {00,01,7f,80,fe,ff} plus rotations of 0x01234567 and single bits); for Le64/Be64/LeSize/BeSize every value whose 8 bytes are drawn from {00,01,7f,80,fe,ff} (6^8 = 1679616 values; every 36th in the quick tier) plus all rotations of 0x0123456789abcdef and all single-bit values. Per value: native->wrapper->native, in-memory bytes == to_le_bytes/to_be_bytes, == with the represented value both ways, != with v^1, the byte-swapped and a rotated value, and (every 97th value) the bytes found in a volatile slice after write_obj at an unaligned offset. Placement sweep: every wrapper x every offset 0..=24 of an 8-aligned container (so every address class mod 8) x 20 boundary values (thorough: + all rotations and single bits) x container pre-filled with 0xa5 / 0x00 x five routes (write_obj, write_slice of as_slice, typed reference store on a volatile slice; write_obj and write on mmap-backed guest memory): the whole container must equal the fill with exactly the wire bytes at the offset, and read_obj must return the value. Every wrapper also stored at every offset of guest memory made of three adjacent regions of 5, 2 and 9 bytes (objects spanning two and three regions). The wire bytes fetched into and written from a host byte buffer at every offset within a word x guest offset 8..24. A stored wrapper moved within guest memory up and down by 1..size bytes (overlapping its old place) through both slice-to-slice copies. Long typed copies: arrays of 1..257 wrappers (around the powers of two) at every address mod 8 with a host buffer of the same length, one shorter and one longer, through the element-array and the slice copies in both directions. Records made of wrappers (a packed {Le16,Be32} of alignment 1 and a repr(C) {Le32,Be32,Be16,Le16}): typed slice copies in both directions for every slice offset 0..8 x slice length 0..=3 records+3 (so also lengths that are not a multiple of the record size) x 0..=4 host records, element arrays and object reads: whole records in wire format move, nothing else changes. Non-trivial = the value is not a byte palindrome (its two byte orders differ). Distinct by construction.");
+    ctx.set_rule("all 2^16 values for Le16/Be16; all 2^32 values for Le32/Be32 in the thorough tier (quick: every value whose bytes are drawn from {00,01,7f,80,fe,ff} plus rotations of 0x01234567 and single bits); for Le64/Be64/LeSize/BeSize every value whose 8 bytes are drawn from {00,01,7f,80,fe,ff} (6^8 = 1679616 values; every 36th in the quick tier) plus all rotations of 0x0123456789abcdef and all single-bit values. Per value: native->wrapper->native, in-memory bytes == to_le_bytes/to_be_bytes, == with the represented value both ways, != with v^1, the byte-swapped and a rotated value, and (every 97th value) the bytes found in a volatile slice after write_obj at an unaligned offset. Placement sweep: every wrapper x every offset 0..=24 of an 8-aligned container (so every address class mod 8) x 20 boundary values (thorough: + all rotations and single bits) x container pre-filled with 0xa5 / 0x00 x five routes (write_obj, write_slice of as_slice, typed reference store on a volatile slice; write_obj and write on mmap-backed guest memory): the whole container must equal the fill with exactly the wire bytes at the offset, and read_obj must return the value. Every wrapper also stored at every offset of guest memory made of three adjacent regions of 5, 2 and 9 bytes (objects spanning two and three regions). The wire bytes through write_all_to / read_exact_from over std writers and readers that move 1..size+1 bytes per call and are interrupted in between. The wire bytes fetched into and written from a host byte buffer at every offset within a word x guest offset 8..24. A stored wrapper moved within guest memory up and down by 1..size bytes (overlapping its old place) through both slice-to-slice copies. Long typed copies: arrays of 1..257 wrappers (around the powers of two) at every address mod 8 with a host buffer of the same length, one shorter and one longer, through the element-array and the slice copies in both directions. Records made of wrappers (a packed {Le16,Be32} of alignment 1 and a repr(C) {Le32,Be32,Be16,Le16}): typed slice copies in both directions for every slice offset 0..8 x slice length 0..=3 records+3 (so also lengths that are not a multiple of the record size) x 0..=4 host records, element arrays and object reads: whole records in wire format move, nothing else changes. Non-trivial = the value is not a byte palindrome (its two byte orders differ). Distinct by construction.");
     ctx.assume("64-bit and pointer-sized wrappers are covered by a bounded byte alphabet, not exhaustively");
     let mut fails = 0;
     for (n, s, a) in [
@@ -592,6 +664,14 @@ pub fn run(tier: Tier, replay: Option<String>) -> i32 {
     }
     {
         let mv: Vec<u64> = vec![0x0123_4567_89ab_cdef, 0xfedc_ba98_7654_3210, 0x8000_0000_0000_0001, 0x00ff_00ff_00ff_00ff, 0x1122_3344_5566_7788];
+        serialised!(ctx, Le16, u16, to_le_bytes, mv);
+        serialised!(ctx, Be16, u16, to_be_bytes, mv);
+        serialised!(ctx, Le32, u32, to_le_bytes, mv);
+        serialised!(ctx, Be32, u32, to_be_bytes, mv);
+        serialised!(ctx, Le64, u64, to_le_bytes, mv);
+        serialised!(ctx, Be64, u64, to_be_bytes, mv);
+        serialised!(ctx, LeSize, usize, to_le_bytes, mv);
+        serialised!(ctx, BeSize, usize, to_be_bytes, mv);
         raw_phases!(ctx, Le16, u16, to_le_bytes, mv);
         raw_phases!(ctx, Be16, u16, to_be_bytes, mv);
         raw_phases!(ctx, Le32, u32, to_le_bytes, mv);
